@@ -303,3 +303,180 @@ theorem runEntities_inv (ext : Ext) (es : List (Entity × Bool)) : Inv (runEntit
     · exact entityStep_inv ext acc p.1 h
 
 end Gtfs.Rt
+
+namespace Gtfs.Rt
+
+/-! ### the trip table as a fold over the mentions of the message -/
+
+/-- the trip mentions one entity contributes, in the order they are merged -/
+def tripMentions (ext : Ext) (e : Entity) : List TripData :=
+  match e.tripUpdate with
+  | some tu => match parseTripUpdate ext tu with
+    | some r => [r.1]
+    | none => []
+  | none =>
+    match e.vehicle with
+    | some vp => (parseVehicle vp).1.toList
+    | none =>
+      match e.alert with
+      | some a => (parseAlert e.id a).2.map fun t => { id := t, inMessage := false }
+      | none => []
+
+theorem foldl_addTrip_trips_congr (ts : List TripData) (a1 a2 : Acc) (h : a1.trips = a2.trips) :
+    (ts.foldl addTrip a1).trips = (ts.foldl addTrip a2).trips := by
+  induction ts generalizing a1 a2 with
+  | nil => simpa using h
+  | cons t r ih => simp only [List.foldl_cons]; apply ih; simp [addTrip, h]
+
+theorem entityStep_trips (ext : Ext) (acc : Acc) (e : Entity) :
+    (entityStep ext acc e).trips = ((tripMentions ext e).foldl addTrip acc).trips := by
+  unfold entityStep tripMentions
+  cases htu : e.tripUpdate with
+  | some tu =>
+    simp only
+    cases hp : parseTripUpdate ext tu with
+    | none => simp
+    | some r =>
+      obtain ⟨t, ov⟩ := r
+      cases ov with
+      | none => simp [addTrip]
+      | some v => cases hv : v.id <;> simp [addTrip, hv]
+  | none =>
+    simp only
+    cases hvp : e.vehicle with
+    | some vp =>
+      simp only
+      cases ht : (parseVehicle vp).1 with
+      | none => cases hv : (parseVehicle vp).2.id <;> simp [hv]
+      | some t => cases hv : (parseVehicle vp).2.id <;> simp [addTrip, hv]
+    | none =>
+      simp only
+      cases ha : e.alert with
+      | none => simp
+      | some a =>
+        simp only
+        rw [List.foldl_map]
+        have : ∀ (l : List TripID) (a1 a2 : Acc), a1.trips = a2.trips →
+            (l.foldl (fun ac t => addTrip ac { id := t, inMessage := false }) a1).trips
+              = (l.foldl (fun ac t => addTrip ac { id := t, inMessage := false }) a2).trips := by
+          intro l
+          induction l with
+          | nil => intro a1 a2 h; simpa using h
+          | cons x r ih => intro a1 a2 h; simp only [List.foldl_cons]; apply ih; simp [addTrip, h]
+        exact this _ _ _ rfl
+
+/-- the trip table after the merge loop is the fold of `addTrip` over all mentions, in feed order -/
+theorem runEntities_trips (ext : Ext) (es : List (Entity × Bool)) :
+    (runEntities ext es).trips
+      = (((es.filter fun p => !p.2).flatMap fun p => tripMentions ext p.1).foldl addTrip {}).trips := by
+  unfold runEntities
+  suffices H : ∀ acc : Acc, (es.foldl (fun acc p => if p.2 then acc else entityStep ext acc p.1) acc).trips
+      = (((es.filter fun p => !p.2).flatMap fun p => tripMentions ext p.1).foldl addTrip acc).trips from H {}
+  induction es with
+  | nil => intro acc; rfl
+  | cons p r ih =>
+    intro acc
+    simp only [List.foldl_cons]
+    rw [ih]
+    cases hp : p.2
+    · simp only [Bool.false_eq_true, if_false, List.filter_cons, hp, Bool.not_false, if_true, List.flatMap_cons, List.foldl_append]
+      exact foldl_addTrip_trips_congr _ _ _ (entityStep_trips ext acc p.1)
+    · simp [List.filter_cons, hp]
+
+/-- per-key view of the fold: what the mentions of key `k` do to its entry -/
+def mergeAll (cur : Option TripData) (ms : List TripData) : Option TripData :=
+  ms.foldl (fun o m => some (mergeTrip o m)) cur
+
+theorem foldl_addTrip_lookup (ms : List TripData) (acc : Acc) (k : TripID) :
+    alookup k (ms.foldl addTrip acc).trips = mergeAll (alookup k acc.trips) (ms.filter fun m => m.id == k) := by
+  induction ms generalizing acc with
+  | nil => rfl
+  | cons m r ih =>
+    simp only [List.foldl_cons]
+    rw [ih]
+    by_cases h : m.id == k
+    · have hk : m.id = k := by simpa using h
+      simp only [List.filter_cons, h, if_true, mergeAll, List.foldl_cons]
+      subst hk
+      simp [addTrip, alookup_aset_same]
+    · have hk : m.id ≠ k := by simpa using h
+      simp only [List.filter_cons, h]
+      simp only [addTrip]
+      rw [alookup_aset_other _ _ _ _ hk]
+      rfl
+
+/-- mentions of one trip without conflicting duplicates: at most one carries the trip's own entity -/
+def AtMostOneOwn (ms : List TripData) : Prop := (ms.filter (·.inMessage)).length ≤ 1
+
+/-- the result of merging the mentions of one key (from an empty entry) does not depend on their
+    order: the own entity's data if there is one, otherwise the bare identifier -/
+theorem mergeAll_closed_form (k : TripID) (ms : List TripData) (hk : ∀ m ∈ ms, m.id = k) (hne : ms ≠ [])
+    (h1 : AtMostOneOwn ms) :
+    mergeAll none ms = some (match ms.find? (·.inMessage) with
+                             | some own => own
+                             | none => { id := k, inMessage := false }) := by
+  -- generalise over the current entry: it is `none`, or bare, or the own entity already seen
+  suffices H : ∀ (ms : List TripData) (cur : Option TripData), (∀ m ∈ ms, m.id = k) →
+      (cur = none ∨ cur = some { id := k, inMessage := false } ∨
+        (∃ own, cur = some own ∧ own.inMessage = true ∧ own.id = k ∧ ms.filter (·.inMessage) = [])) →
+      (ms.filter (·.inMessage)).length ≤ 1 → (cur = none → ms ≠ []) →
+      mergeAll cur ms = some (match cur with
+        | some c => if c.inMessage then c else (match ms.find? (·.inMessage) with | some own => own | none => c)
+        | none => (match ms.find? (·.inMessage) with | some own => own | none => { id := k, inMessage := false })) by
+    have := H ms none hk (Or.inl rfl) h1 (fun _ => hne)
+    simpa using this
+  intro ms
+  induction ms with
+  | nil =>
+    intro cur _ hcur _ hne
+    rcases hcur with rfl | rfl | ⟨own, rfl, ho, _, _⟩
+    · exact absurd rfl (hne rfl)
+    · simp [mergeAll]
+    · simp [mergeAll, ho]
+  | cons m r ih =>
+    intro cur hk hcur h1 _
+    have hmk : m.id = k := hk m (by simp)
+    have hkr : ∀ x ∈ r, x.id = k := fun x hx => hk x (by simp [hx])
+    simp only [mergeAll, List.foldl_cons]
+    by_cases hm : m.inMessage = true
+    · -- the own entity: it replaces whatever is there; nothing in-message may follow
+      have hr : r.filter (·.inMessage) = [] := by
+        simp only [List.filter_cons, hm, if_true, List.length_cons] at h1
+        exact List.eq_nil_of_length_eq_zero (by omega)
+      have hnone : r.find? (·.inMessage) = none := by
+        rw [List.find?_eq_none]; intro x hx hxi
+        have : x ∈ r.filter (·.inMessage) := List.mem_filter.mpr ⟨hx, hxi⟩
+        rw [hr] at this; simp at this
+      have step : mergeTrip cur m = m := by simp [mergeTrip, hm]
+      have := ih (some m) hkr (Or.inr (Or.inr ⟨m, rfl, hm, hmk, hr⟩)) (by simp [hr]) (by simp)
+      simp only [mergeAll] at this
+      rw [step, this]
+      rcases hcur with rfl | rfl | ⟨own, rfl, ho, _, hf⟩
+      · simp [hm, List.find?_cons]
+      · simp [hm, List.find?_cons]
+      · simp [List.filter_cons, hm] at hf
+    · -- a reference: the entry keeps its data, the identifier is (re)set to the same key
+      have hm' : m.inMessage = false := by simpa using hm
+      have h1' : (r.filter (·.inMessage)).length ≤ 1 := by simpa [List.filter_cons, hm'] using h1
+      rcases hcur with rfl | rfl | ⟨own, rfl, ho, hok, hf⟩
+      · have step : mergeTrip none m = { id := k, inMessage := false } := by simp [mergeTrip, hm', hmk]
+        have := ih (some { id := k, inMessage := false }) hkr (Or.inr (Or.inl rfl)) h1' (by simp)
+        simp only [mergeAll] at this
+        rw [step, this]
+        simp [List.find?_cons, hm']
+      · have step : mergeTrip (some { id := k, inMessage := false }) m = { id := k, inMessage := false } := by
+          simp [mergeTrip, hm', hmk]
+        have := ih (some { id := k, inMessage := false }) hkr (Or.inr (Or.inl rfl)) h1' (by simp)
+        simp only [mergeAll] at this
+        rw [step, this]
+        simp [List.find?_cons, hm']
+      · have step : mergeTrip (some own) m = own := by
+          simp only [mergeTrip, hm', Bool.false_eq_true, if_false, Option.getD_some]
+          cases own; simp_all
+        have hf' : r.filter (·.inMessage) = [] := by simpa [List.filter_cons, hm'] using hf
+        have := ih (some own) hkr (Or.inr (Or.inr ⟨own, rfl, ho, hok, hf'⟩)) h1' (by simp)
+        simp only [mergeAll] at this
+        rw [step, this]
+        simp [ho]
+
+end Gtfs.Rt
